@@ -56,12 +56,21 @@ pub fn pick_corpus(c: &mut Choices<'_>, g: &GenCtx, max_chunks: usize) -> Option
 pub fn gen_source(c: &mut Choices<'_>, g: &GenCtx, space: &SrcSpace) -> Src {
     let use_prog = c.below(10) < space.prog_weight || g.corpus.chunk_index.is_empty();
     let mut src = if use_prog {
-        let p = crate::gen::prog::gen_prog(c);
+        let p = crate::gen::prog::gen_prog(c, &crate::gen::prog::ProgSpace::default());
+        let wild = c.weighted(&[3, 3, 2, 1]);
+        let r = crate::gen::prog::render(
+            &p,
+            c,
+            &crate::gen::prog::RenderOpts {
+                wild,
+                ..Default::default()
+            },
+        );
         Src {
-            text: p.text,
-            origin: "prog".into(),
+            text: r.text,
+            origin: if p.only_2015 { "prog:only2015".into() } else { "prog".into() },
             edition: p.min_edition.into(),
-            layout: 0,
+            layout: wild,
         }
     } else {
         pick_corpus(c, g, space.max_chunks).unwrap()
